@@ -253,6 +253,41 @@ theorem handler_needs_wellformed_key (p : Prims M S) (pk : PubKey) (a : Bytes)
                · cases h
   · cases h
 
+/-- ASSUMPTION on the library verification, stated where it is used: a signature that verifies
+    for `m` under a key does not verify for any other message under the same key.  (A digest
+    based scheme that looked at the first 32 bytes of the message only — the BTCEC handler before
+    /repo b2b7e17 — violates it.)  This is not provable here (`sigVerify` is a parameter); it is
+    VALIDATED per algorithm on every run by the `sigm` monitor
+    `accepted-signature-survives-message-change:<alg>:<position class>`: every accepted
+    (key, message, signature) is offered again with the message changed inside the first 32
+    bytes, at and after byte 32, in the last byte, with one byte appended and one dropped.
+    It is the consequence of the two hypotheses of `tamper_rejected` (unforgeability + the owner
+    signed one message only) that concerns one fixed signature. -/
+def MessageBinding (p : Prims M S) : Prop :=
+  ∀ pk m m' s, p.sigVerify pk m s = true → p.sigVerify pk m' s = true → m' = m
+
+/-- under `MessageBinding`, the accepted signatures of at least one required signer pin the
+    signed bytes: they are accepted for no other message -/
+theorem accepted_signatures_bind_message (p : Prims M S) (hb : MessageBinding p) (data data' : M)
+    (signers : List Bytes) (hreq : signers ≠ []) (sigs : List (Sig PubKey S))
+    (h : validateBasicK p data signers sigs = .ok) (h' : validateBasicK p data' signers sigs = .ok) :
+    data' = data := by
+  have a := (authentic p data signers sigs).mp h
+  have b := (authentic p data' signers sigs).mp h'
+  cases signers with
+  | nil => exact absurd rfl hreq
+  | cons s ss =>
+    have hj : 0 < sigs.length := by rw [a.1]; simp
+    exact hb _ _ _ _ (a.2 0 (by simp) hj).2 (b.2 0 (by simp) hj).2
+
+/-- …hence, with `serBytes_injective`, they pin type, payload, fee and memo: the same signatures
+    are accepted for no other transaction -/
+theorem accepted_signatures_bind_transaction {S : Type} (p : Prims ByteArray S) (hb : MessageBinding p)
+    (t t' : RawTx) (signers : List Bytes) (hreq : signers ≠ []) (sigs : List (Sig PubKey S))
+    (h : validateBasicK p (serBytes t) signers sigs = .ok)
+    (h' : validateBasicK p (serBytes t') signers sigs = .ok) : t' = t :=
+  serBytes_injective (accepted_signatures_bind_message p hb _ _ signers hreq sigs h h')
+
 /-- keys of an unknown algorithm, or of the wrong size, are rejected as ErrInvalidPubkey -/
 theorem unusable_key_rejected (p : Prims M S) (data : M) (s : Bytes) (ss : List Bytes)
     (g : Sig PubKey S) (gs : List (Sig PubKey S)) (hl : gs.length = ss.length)
@@ -268,6 +303,19 @@ def exPrims : Prims Nat Nat :=
 /-- primitives that accept signature `s` for key `pk` over `m` iff `s = m + pk.data.length` -/
 def exPrimsOK : Prims Nat Nat :=
   { parses := fun _ => true, hashAddr := fun pk => pk.data, sigVerify := fun pk m s => s == m + pk.data.length }
+
+/-- `exPrimsOK` binds messages; a scheme reading only `m % 100` (the "first 32 bytes") does not -/
+example : MessageBinding exPrimsOK := by
+  intro pk m m' s h h'
+  simp only [exPrimsOK, beq_iff_eq] at h h'
+  omega
+def exPrimsPrefix : Prims Nat Nat :=
+  { parses := fun _ => true, hashAddr := fun pk => pk.data, sigVerify := fun _ m s => s == m % 100 }
+example : ¬ MessageBinding exPrimsPrefix := fun h => by
+  have := h ⟨.btcec, []⟩ 7 107 7 (by decide) (by decide)
+  revert this; decide
+example : validateBasicK exPrimsPrefix 7 [[2, 1]] [⟨⟨.btcec, [2, 1]⟩, 7⟩] = .ok ∧
+    validateBasicK exPrimsPrefix 107 [[2, 1]] [⟨⟨.btcec, [2, 1]⟩, 7⟩] = .ok := by decide
 
 /-- regression (former `btcec_counterexample`): the empty address with a BTCEC key and junk -/
 example : validateBasicK exPrims 7 [[]] [⟨⟨.btcec, [2, 1]⟩, 0⟩] = .unmatch := by decide
